@@ -647,6 +647,9 @@ pub fn run(session: &Session) -> i32 {
     for p in crate::genr::nearmiss::binder_scope_programs() {
         cases.push(json!({"src": "binder-scope", "text": p}));
     }
+    for p in crate::genr::nearmiss::missing_return_programs() {
+        cases.push(json!({"src": "missing-return", "text": p}));
+    }
     for p in crate::genr::nearmiss::literal_spelling_programs() {
         cases.push(json!({"src": "literal-spelling", "text": p}));
     }
